@@ -124,6 +124,16 @@ CHECKS = {
              "x constant/periodic/random data x raw/zlib framing x encs x serializations as refimpl-authenticated JWEs, and 64 MiB (512 MiB thorough) bombs "
              "whose decryption must raise exceeded-size within a traced-memory bound.",
         note="Trusted: TLC, zlib as primitive, tracemalloc as memory observer (Python allocations only)."),
+    "C16": dict(
+        cat="model_checking", ref="DESIGN.md section 6 (C16)",
+        technique="TLA+ Parse exception-flow spec (entry point x slot x content class -> stage, native exception, guard) model-checked by TLC; every case concretised as a refimpl-authenticated token and fed to joserfc; seeded mutation fuzzing on top",
+        text="Parse.tla models each consuming entry point as a pipeline of stages whose primitives have domains; a case puts attacker content of some class "
+             "into one slot (header JSON type, 20 header members x 19 JSON classes x positions, epk sub-members, every segment x 7 text classes, shapes, "
+             "authenticated-but-malformed DEFLATE/claims). TLC checks NoEscape for the guarded design and refutes nine 'guard removed' deviations (the nine "
+             "escapes found on the original tree). All ~5.6k cases are built as tokens that refimpl authenticated over the malformed content, so late "
+             "stages are reached, and run through the ten real entry points; an exception that is neither JoseError nor ValueError is a violation "
+             "identified by (type, innermost joserfc function). Byte/JSON mutation fuzzing of valid tokens adds 24k (quick) to 320k (thorough) inputs.",
+        note="Trusted: TLC, refimpl. Inputs beyond the modelled slots are sampled by fuzzing only; interpreter resource limits other than JSON nesting are not decided."),
 }
 
 NOT_YET = {}
